@@ -1,77 +1,315 @@
-"""Contracts for slimta/queue/__init__.py"""
+"""Contracts for slimta/queue/__init__.py (Queue) and the abstract reference store RS."""
+import z3
 from pyvc.registry import klass, extern, contract, predicate, assume_note
 from pyvc import types as T
+from pyvc.core import Val, SeqV, Undecided
+from pyvc import exec as E, builtins as B, calls
 
 M = 'slimta/queue/__init__.py'
 
+T.alias('RcptResult', 'Union[None, Reply, PermanentRelayError, TransientRelayError]')
+
+# ---------------------------------------------------------------------------- data classes
+klass('Reply', fields={'code': 'Opt[Str]', 'message': 'Opt[Str]'}, eq=['code', 'message'],
+      truthy='self.code is not None')
+extern('Reply.__init__', params={'self': 'Reply', 'code': 'Opt[Str]', 'message': 'Opt[Str]'},
+       defaults={'code': 'None', 'message': 'None'}, modifies=['self.code', 'self.message'],
+       ensures=['self.code == code'],
+       notes='Reply(code, message): code stored as given (3-digit validation not modelled here), message opaque')
+
+klass('SlimtaError', ['Exception'])
+klass('RelayError', ['SlimtaError'], fields={'reply': 'Reply'})
+klass('PermanentRelayError', ['RelayError'])
+klass('TransientRelayError', ['RelayError'])
+klass('QueueError', ['SlimtaError'], module=M)
+
+klass('Envelope', fields={'sender': 'Opt[Str]', 'recipients': 'List[Str]'})
+
+
+def _envelope_copy(st, args, kw):
+    """Envelope.copy(new_rcpts=None): deep copy (assumed contract of copy.deepcopy: structurally
+    equal, shares no mutable object); when new_rcpts is truthy the copy's `recipients` IS that object."""
+    self_v = args[0]
+    new_rcpts = args[1] if len(args) > 1 else kw.get('new_rcpts')
+    E.check_or_raise(st, self_v.z != 0, 'AttributeError')
+    ref = st.new_ref('Envelope')
+    res = Val(T.TRef('Envelope'), ref)
+    st.write_field(ref, 'Envelope', 'sender', st.read_field(self_v.z, 'Envelope', 'sender'))
+    old_r = st.read_field(self_v.z, 'Envelope', 'recipients')
+    et = old_r.t.args[0]
+    # deep copy of the recipients list (a fresh list object with equal contents)
+    cp = st.new_ref('list')
+    st.assume(z3.Implies(old_r.z != 0, z3.BoolVal(True)))
+    st.list_store(cp, et, st.list_seq(old_r.z, et))
+    st.write_field(ref, 'Envelope', 'recipients', Val(old_r.t, cp))
+    if new_rcpts is not None and new_rcpts.t.kind != 'none':
+        if st.branch(E.truthy(st, new_rcpts)):
+            st.write_field(ref, 'Envelope', 'recipients', st.coerce(new_rcpts, old_r.t))
+    return res
+
+
+extern('Envelope.copy', model=_envelope_copy,
+       notes='Envelope.copy: deepcopy contract (fresh object graph, equal values); recipients replaced by the argument object when truthy')
+
+klass('Bounce', ['Envelope'])
+
+# ---------------------------------------------------------------------------- reference store RS
+klass('QueueStorage', module=M,
+      ghost={'rs_has': 'SetV[Str]', 'rs_rcpts': 'MapV[Str, ArrV[Str]]', 'rs_nrcpts': 'MapV[Str, Int]',
+             'rs_attempts': 'MapV[Str, Int]', 'rs_ts': 'MapV[Str, Real]'})
+predicate('rs_out(s, id)', 'mkseq(s.rs_rcpts[id], s.rs_nrcpts[id])')
+
+extern('QueueStorage.increment_attempts', params={'self': 'QueueStorage', 'id': 'Str'}, returns='Int',
+       yields=True, modifies=['self.rs_attempts'],
+       ensures=['result == old(self.rs_attempts[id]) + 1',
+                'self.rs_attempts == store(old(self.rs_attempts), id, result)'])
+extern('QueueStorage.set_timestamp', params={'self': 'QueueStorage', 'id': 'Str', 'timestamp': 'Real'},
+       yields=True, modifies=['self.rs_ts'], ensures=['self.rs_ts == store(old(self.rs_ts), id, timestamp)'])
+extern('QueueStorage.remove', params={'self': 'QueueStorage', 'id': 'Str'}, yields=True,
+       modifies=['self.rs_has'], ensures=['self.rs_has == store(old(self.rs_has), id, False)'])
+extern('QueueStorage.set_recipients_delivered',
+       params={'self': 'QueueStorage', 'id': 'Str', 'rcpt_indexes': 'List[Int]'}, yields=True,
+       modifies=['self.rs_rcpts', 'self.rs_nrcpts'],
+       requires=['is_list(rcpt_indexes)'],
+       notes='interface type of rcpt_indexes is a list (QueueStorage docstring); RS semantics: positions of the '
+             'envelope last returned by get() are removed')
+extern('QueueStorage.get', params={'self': 'QueueStorage', 'id': 'Str'},
+       returns='Tuple[Envelope, Int]', yields=True,
+       ensures=['result[0] != None', 'result[0].recipients != None', 'is_list(result[0].recipients)',
+                'fresh(result[0])', 'fresh(result[0].recipients)',
+                'seq(result[0].recipients) == rs_out(self, id)', 'result[1] == self.rs_attempts[id]',
+                'id in self.rs_has'],
+       raises={'KeyError': ['id not in self.rs_has']})
+
+klass('Relay', ghost={})
+extern('Relay._attempt', params={'self': 'Relay', 'envelope': 'Envelope', 'attempts': 'Int'},
+       returns='Union[None, Reply, Dict[Str, RcptResult], List[RcptResult]]', yields=True,
+       raises={'TransientRelayError': ['exc.reply != None'], 'PermanentRelayError': ['exc.reply != None'],
+               'OtherException': []},
+       ensures=['implies(is_type(result, Dict[Str, RcptResult]), '
+                '  forall(envelope.recipients, lambda r: dict_has(cast(result, Dict[Str, RcptResult]), r)) '
+                '  and forall(dict_keys(cast(result, Dict[Str, RcptResult])), lambda r: r in seq(envelope.recipients)))',
+                'implies(is_type(result, List[RcptResult]), len(cast(result, List[RcptResult])) == len(envelope.recipients))'],
+       notes='relay result contract (Relay.attempt docstring + C01): None | Reply | mapping keyed by exactly the '
+             'recipients | sequence of equal length; raises Transient/Permanent RelayError or anything else')
+
+extern('logging.log_exception', params={'name': 'Str'}, notes='logging: no effect on verified state')
+
+# ---------------------------------------------------------------------------- Queue
 klass('Queue', module=M,
       fields={'queued': 'List[Entry]', 'queued_ids': 'Set[Id]', 'active_ids': 'Set[Id]',
-              'wake': 'Event', 'queued_lock': 'Semaphore'},
-      ghost={'pending_dequeue': 'Set[Id]'})
+              'wake': 'Event', 'queued_lock': 'Semaphore', 'store': 'QueueStorage', 'relay': 'Relay',
+              'bounce_queue': 'Queue'},
+      ghost={'pending_dequeue': 'Set[Id]',          # ids for which a _dequeue greenlet was spawned
+             'attempting': 'Set[Id]',               # ids for which an _attempt greenlet was spawned (in flight)
+             'pending_retry': 'Set[Id]',            # ids for which a _retry_later greenlet was spawned
+             'removed': 'Set[Id]',                  # ids for which store.remove was spawned
+             'bounces': 'List[Tuple[Envelope, Reply]]',   # (envelope, reply) handed to a _bounce greenlet
+             'permfails': 'List[Tuple[Envelope, Reply]]'  # (envelope, reply) of every _perm_fail call
+             })
 
 predicate('INV_timetable(q)',
           'q.queued != None and q.queued_ids != None and q.active_ids != None and q.wake != None '
-          'and q.queued_ids is not q.active_ids '
+          'and q.queued_ids is not q.active_ids and is_list(q.queued) '
           'and setv(q.queued_ids) == set_of(q.queued, lambda e: e[1]) '
           'and sorted_by(q.queued, lambda e: e[0]) and distinct_by(q.queued, lambda e: e[1])')
 
+predicate('GHOST_ok(q)',
+          'q.pending_dequeue != None and q.attempting != None and q.pending_retry != None and q.removed != None '
+          'and q.bounces != None and q.permfails != None and is_list(q.bounces) and is_list(q.permfails) '
+          'and q.pending_dequeue is not q.queued_ids and q.pending_dequeue is not q.active_ids '
+          'and q.attempting is not q.queued_ids and q.attempting is not q.active_ids '
+          'and q.attempting is not q.pending_dequeue and q.pending_retry is not q.queued_ids '
+          'and q.pending_retry is not q.active_ids and q.pending_retry is not q.pending_dequeue '
+          'and q.pending_retry is not q.attempting and q.removed is not q.queued_ids '
+          'and q.removed is not q.active_ids and q.removed is not q.pending_dequeue '
+          'and q.removed is not q.attempting and q.removed is not q.pending_retry '
+          'and q.bounces is not q.permfails and q.store != None')
+
+
+def _set_add_ghost(st, self_v, field, x):
+    cur = st.read_field(self_v.z, 'Queue', field)
+    et = cur.t.args[0]
+    st.set_store(cur.z, et, z3.Store(st.set_val(cur.z, et), st.coerce(x, et).z, True))
+
 
 def _pool_spawn(st, args, kw):
-    """Queue._pool_spawn(which, func, *args): assumed (gevent spawn: schedules the call,
-    returns at once, no yield for an unbounded pool).  Ghost: a spawned _dequeue(id) puts id
-    into pending_dequeue."""
-    import z3
-    from pyvc.core import Val
-    from pyvc import exec as E
+    """Queue._pool_spawn(which, func, *args): assumed (gevent spawn on an UNBOUNDED pool: schedules the
+    call, returns at once, does not yield).  Ghost bookkeeping by target; the spawn of _attempt is the
+    C03 'one attempt in flight' obligation."""
     self_v, which, func = args[0], args[1], args[2]
     rest = args[3:]
     f = func.z
-    if f.kind == 'bound' and f.name == '_dequeue':
-        cur = st.read_field(self_v.z, 'Queue', 'pending_dequeue')
+    line = st.lineno
+    if f.kind != 'bound':
+        raise Undecided('_pool_spawn of %r' % (f,))
+    if f.name == '_dequeue':
+        _set_add_ghost(st, self_v, 'pending_dequeue', rest[0])
+    elif f.name == '_attempt':
+        att = st.read_field(self_v.z, 'Queue', 'attempting')
+        act = st.read_field(self_v.z, 'Queue', 'active_ids')
+        idz = st.coerce(rest[0], T.STR).z
+        st.prove('spawn[_attempt]@%d/not-already-in-flight' % line,
+                 z3.Not(z3.Select(st.set_val(att.z, T.STR), idz)), kind='pre')
+        st.prove('spawn[_attempt]@%d/marked-active' % line,
+                 z3.Select(st.set_val(act.z, T.STR), idz), kind='pre')
+        _set_add_ghost(st, self_v, 'attempting', rest[0])
+    elif f.name == '_retry_later':
+        _set_add_ghost(st, self_v, 'pending_retry', rest[0])
+    elif f.name == 'remove':
+        _set_add_ghost(st, self_v, 'removed', rest[0])
+    elif f.name == '_bounce':
+        cur = st.read_field(self_v.z, 'Queue', 'bounces')
         et = cur.t.args[0]
-        st.set_store(cur.z, et, z3.Store(st.set_val(cur.z, et), st.coerce(rest[0], et).z, True))
+        s = st.list_seq(cur.z, et)
+        tup = E.make_tuple(st, [st.coerce(rest[0], T.TRef('Envelope')), st.coerce(rest[1], T.TRef('Reply'))])
+        st.list_store(cur.z, et, SeqV(z3.Store(s.arr, s.n, tup.z), s.n + 1))
+    elif f.name in ('_load_all', '_wait_store'):
+        pass
+    else:
+        raise Undecided('_pool_spawn of unknown target %s' % f.name)
     return E.NONE_VAL()
 
 
 contract('Queue._pool_spawn', kind='extern', model=_pool_spawn,
-         notes='Queue._pool_spawn modelled as gevent.spawn (trusted)')
+         notes='Queue._pool_spawn modelled as gevent.spawn on an unbounded pool (no yield); bounded pools not decided')
+assume_note('store_pool / relay_pool unbounded: Pool.spawn does not block (bounded pools are outside what is decided)')
+
+GH = ['contents(self.pending_dequeue)', 'contents(self.attempting)', 'contents(self.pending_retry)',
+      'contents(self.removed)', 'contents(self.bounces)', 'contents(self.permfails)']
 
 contract('Queue._add_queued', module=M, props=['C12', 'C03'],
          params={'self': 'Queue', 'entry': 'Entry'},
          requires=['INV_timetable(self)'],
          ensures=['INV_timetable(self)',
                   'implies(old(entry[1] not in self.queued_ids and entry[1] not in self.active_ids), '
-                  '        entry[1] in self.queued_ids and self.wake.flag)',
+                  '        entry[1] in self.queued_ids and self.wake.flag '
+                  '        and exists(self.queued, lambda e: e[1] == entry[1] and e[0] == entry[0]))',
+                  'implies(old(entry[1] in self.queued_ids or entry[1] in self.active_ids), '
+                  '        seq(self.queued) == old(seq(self.queued)))',
                   'forall(old(self.queued), lambda e: e[1] in self.queued_ids)',
                   'setv(self.active_ids) == old(setv(self.active_ids))'],
          modifies=['contents(self.queued)', 'contents(self.queued_ids)', 'self.wake.flag'])
 
 contract('Queue._check_ready', module=M, props=['C12', 'C03'],
          params={'self': 'Queue', 'now': 'Real'},
-         requires=['INV_timetable(self)', 'self.pending_dequeue != None',
-                   'self.pending_dequeue is not self.queued_ids', 'self.pending_dequeue is not self.active_ids'],
+         requires=['INV_timetable(self)', 'GHOST_ok(self)'],
          ensures=['INV_timetable(self)',
-                  # never early: only due entries were handed to _dequeue, and every due entry was
+                  # every due entry was handed to _dequeue and left the timetable; nothing else was
                   'forall(old(self.queued), lambda e: implies(e[0] <= now, e[1] in self.pending_dequeue and e[1] not in self.queued_ids))',
                   'forall(old(self.queued), lambda e: implies(e[0] > now, e[1] in self.queued_ids))',
+                  # never early
                   'forall(Str, lambda x: implies(x in self.pending_dequeue and not old(x in self.pending_dequeue), '
                   '       exists(old(self.queued), lambda e: e[1] == x and e[0] <= now)))',
-                  'forall(self.queued, lambda e: e[0] > now)'],
+                  'forall(self.queued, lambda e: e[0] > now)',
+                  'setv(self.active_ids) == old(setv(self.active_ids))'],
          modifies=['self.queued', 'self.queued_ids', 'contents(self.pending_dequeue)'],
          loops={0: dict(inv=['last_i == _k',
                              'forall(range(0, _k), lambda j: self.queued[j][0] <= now and self.queued[j][1] in self.pending_dequeue)',
                              'forall(Str, lambda x: implies(x in self.pending_dequeue and not old(x in self.pending_dequeue), '
-                             '       exists(range(0, _k), lambda j: self.queued[j][1] == x)))',
-                             ],
+                             '       exists(range(0, _k), lambda j: self.queued[j][1] == x)))'],
                         modifies=['contents(self.pending_dequeue)'])})
 
 contract('Queue.flush', module=M, props=['C12'],
          params={'self': 'Queue'},
-         requires=['INV_timetable(self)', 'self.pending_dequeue != None', 'self.queued_lock != None',
-                   'self.pending_dequeue is not self.queued_ids', 'self.pending_dequeue is not self.active_ids'],
+         requires=['INV_timetable(self)', 'GHOST_ok(self)', 'self.queued_lock != None'],
          ensures=['INV_timetable(self)', 'len(self.queued) == 0',
-                  'forall(old(self.queued), lambda e: e[1] in self.pending_dequeue)'],
+                  'forall(old(self.queued), lambda e: e[1] in self.pending_dequeue)',
+                  'setv(self.active_ids) == old(setv(self.active_ids))'],
          modifies=['self.queued', 'self.queued_ids', 'contents(self.queued_ids)', 'self.wake.flag',
                    'self.queued_lock.counter', 'contents(self.pending_dequeue)'],
          loops={0: dict(inv=['forall(range(0, _k), lambda j: self.queued[j][1] in self.pending_dequeue)'],
                         modifies=['contents(self.pending_dequeue)'])})
+
+extern('QueueStorage.load', params={'self': 'QueueStorage'}, returns='List[Entry]', yields=True,
+       ensures=['result != None', 'fresh(result)'],
+       notes='load(): the generator is modelled as the list of entries it yields (consumed to exhaustion)')
+extern('QueueStorage.wait', params={'self': 'QueueStorage'}, returns='List[Entry]', yields=True,
+       ensures=['result != None', 'fresh(result)'], raises={'NotImplementedError': []})
+
+contract('Queue._load_all', module=M, props=['C12'],
+         params={'self': 'Queue'},
+         requires=['INV_timetable(self)', 'self.store != None'],
+         ensures=['INV_timetable(self)'],
+         modifies=['contents(self.queued)', 'contents(self.queued_ids)', 'self.wake.flag'],
+         loops={0: dict(inv=['INV_timetable(self)',
+                             'forall(range(0, _k), lambda j: _seq0[j][1] in self.queued_ids or _seq0[j][1] in self.active_ids)'])})
+
+contract('Queue._wait_store', module=M, props=['C12'],
+         params={'self': 'Queue'},
+         requires=['INV_timetable(self)', 'self.store != None'],
+         ensures=['INV_timetable(self)'],
+         modifies=['contents(self.queued)', 'contents(self.queued_ids)', 'self.wake.flag'],
+         loops={0: dict(inv=['INV_timetable(self)']),
+                1: dict(inv=['INV_timetable(self)',
+                             'forall(range(0, _k), lambda j: _seq1[j][1] in self.queued_ids or _seq1[j][1] in self.active_ids)'])})
+
+contract('Queue._remove', module=M, props=['C01', 'C03', 'C13'],
+         params={'self': 'Queue', 'id': 'Str'},
+         requires=['GHOST_ok(self)', 'self.queued_ids != None', 'self.active_ids != None',
+                   'self.queued_ids is not self.active_ids'],
+         ensures=['id in self.removed', 'id not in self.queued_ids', 'id not in self.active_ids',
+                  'setv(self.removed) == store(old(setv(self.removed)), id, True)',
+                  'setv(self.queued_ids) == store(old(setv(self.queued_ids)), id, False)',
+                  'setv(self.active_ids) == store(old(setv(self.active_ids)), id, False)'],
+         modifies=['contents(self.removed)', 'contents(self.queued_ids)', 'contents(self.active_ids)'])
+
+contract('Queue._perm_fail', module=M, props=['C01', 'C13'],
+         params={'self': 'Queue', 'id': 'Opt[Str]', 'envelope': 'Envelope', 'reply': 'Reply'},
+         requires=['GHOST_ok(self)', 'self.queued_ids != None', 'self.active_ids != None',
+                   'self.queued_ids is not self.active_ids', 'envelope != None'],
+         ensures=[
+             # exactly one bounce greenlet iff the sender is non-empty (null-sender guard)
+             'implies(bool(envelope.sender), len(self.bounces) == old(len(self.bounces)) + 1 '
+             '        and self.bounces[len(self.bounces) - 1] == (envelope, reply))',
+             'implies(not bool(envelope.sender), len(self.bounces) == old(len(self.bounces)))',
+             'forall(range(0, old(len(self.bounces))), lambda j: self.bounces[j] == old(seq(self.bounces))[j])',
+             'implies(id is not None, cast(id, Str) in self.removed and cast(id, Str) not in self.active_ids)',
+             'implies(id is None, setv(self.removed) == old(setv(self.removed)) '
+             '        and setv(self.active_ids) == old(setv(self.active_ids)) '
+             '        and setv(self.queued_ids) == old(setv(self.queued_ids)))'],
+         modifies=['contents(self.removed)', 'contents(self.queued_ids)', 'contents(self.active_ids)',
+                   'contents(self.bounces)'])
+
+# ---------------------------------------------------------------------------- bounce grouping (C13)
+predicate('GROUPS_ok(groups, envelope, n)',
+          # n = number of (recipient, reply) positions already distributed
+          'groups != None and is_list(groups) '
+          'and forall(groups, lambda g: g[0] != None and g[1] != None and fresh(g[1]) and g[1].recipients != None '
+          '           and fresh(g[1].recipients) and is_list(g[1].recipients) and g[1].sender == envelope.sender '
+          '           and len(g[1].recipients) >= 1) '
+          'and forall(pairs(len(groups)), lambda a, b: groups[a][1] is not groups[b][1] '
+          '           and groups[a][1].recipients is not groups[b][1].recipients '
+          '           and not (groups[a][0] == groups[b][0]))')
+
+contract('Queue._split_by_reply', module=M, props=['C13', 'C01'],
+         params={'self': 'Queue', 'envelope': 'Envelope', 'replies': 'Union[Reply, List[Reply]]'},
+         returns='List[Tuple[Reply, Envelope]]',
+         requires=['envelope != None', 'envelope.recipients != None',
+                   'implies(is_type(replies, List[Reply]), '
+                   '  len(cast(replies, List[Reply])) >= len(envelope.recipients) '
+                   '  and forall(cast(replies, List[Reply]), lambda r: r != None))',
+                   'implies(is_type(replies, Reply), cast(replies, Reply) != None)'],
+         ensures=['result != None', 'fresh(result)', 'is_list(result)',
+                  'implies(is_type(replies, Reply), len(result) == 1 and result[0] == (cast(replies, Reply), envelope))',
+                  # one group per distinct reply, fresh unshared envelopes, same sender
+                  'implies(is_type(replies, List[Reply]), GROUPS_ok(result, envelope, len(envelope.recipients)))',
+                  # every failed recipient is named in the group of its own reply
+                  'implies(is_type(replies, List[Reply]), forall(range(0, len(envelope.recipients)), lambda i: '
+                  '   implies(trig(i), exists(result, lambda g: g[0] == cast(replies, List[Reply])[i] '
+                  '          and envelope.recipients[i] in seq(g[1].recipients))), trigger=lambda i: trig(i)))',
+                  # and nobody else: every recipient named in a group failed with that group's reply
+                  'implies(is_type(replies, List[Reply]), forall(result, lambda g: forall(g[1].recipients, lambda r: '
+                  '   exists(range(0, len(envelope.recipients)), lambda i: envelope.recipients[i] == r '
+                  '          and cast(replies, List[Reply])[i] == g[0]))))',
+                  'seq(envelope.recipients) == old(seq(envelope.recipients))'],
+         modifies=[], locals={'groups': 'List[Tuple[Reply, Envelope]]'},
+         loops={0: dict(modifies=['fresh'],
+                        inv=['GROUPS_ok(groups, envelope, _k)',
+                             'fresh(groups)',
+                             'forall(range(0, _k), lambda i: implies(trig(i), exists(groups, lambda g: g[0] == replies[i] '
+                             '       and envelope.recipients[i] in seq(g[1].recipients))), trigger=lambda i: trig(i))',
+                             'forall(groups, lambda g: forall(g[1].recipients, lambda r: '
+                             '   exists(range(0, _k), lambda i: envelope.recipients[i] == r and replies[i] == g[0])))']),
+                1: dict(modifies=[],
+                        inv=['forall(range(0, _k), lambda j: not (replies[i] == groups[j][0]))'])})
